@@ -485,6 +485,8 @@ def main():
         if found: print('FAILING-INPUT: %s' % json.dumps(probe.get('case'))[:600])
         print('VIOLATION property=%s replay=%s%s' % (pid, rp, '' if found else ' no-failing-input-found'))
         sys.exit(1)
+    if pid == 'C17' and rep.get('clone_unverified') and not violation:
+        print('MACHINERY: %s implement Clone by hand (or not at all): the clone clause of C17 is outside the supported subset (M4 covers #[derive(Clone)] only) and the bounded search found no failing input: undecided' % sorted(rep['clone_unverified'])); sys.exit(2)
     if needs_contract and not violation:
         print('MACHINERY: %s have no contract (new helper function?); the obligations %s of %s could not be discharged and the bounded search found no failing input: undecided, needs contract work' % (
             sorted(rep.get('uncontracted_fns', [])), sorted(set('%s::%s[%s]' % (f['module'], f['fn'], f['label']) for f in needs_contract)), pid)); sys.exit(2)
